@@ -46,6 +46,7 @@ def main():
     tier = "quick"
     build = None
     runcmd = None
+    reuse = None
     i = 3
     while i < len(a):
         if a[i] == "--props":
@@ -56,10 +57,20 @@ def main():
             build = a[i + 1]
         elif a[i] == "--run":
             runcmd = a[i + 1]
+        elif a[i] == "--reuse":
+            reuse = a[i + 1]  # meta.json of an earlier evaluation of the same patch: its confirmation step is taken over
         i += 2
     meta = dict(id=sid, breaks_property=props[0] if props else None, checks_run=props, tier=tier, at=time.strftime("%Y-%m-%d %H:%M:%S"))
     wt = "/tmp/seedwt-%s-%d" % (sid, os.getpid())
+    if reuse:
+        old = json.load(open(reuse))
+        for k in ("demo_unchanged_exit", "demo_changed_exit", "demo_changed_output_tail", "demo_build_cmd", "demo_run_cmd", "unit_tests_with_change", "unit_tests_pass_with_change"):
+            meta[k] = old.get(k)
+        meta["confirmation_reused_from"] = old.get("at")
+        meta["first_measurement_results"] = {k: dict(detected=v.get("detected"), classes=v.get("classes")) for k, v in (old.get("check_results") or {}).items()}
     try:
+        if reuse:
+            raise StopIteration
         r = sh(["git", "-C", REPO, "worktree", "add", "-q", "--detach", wt, "HEAD"])
         if r.returncode:
             print(r.stdout)
@@ -99,6 +110,8 @@ def main():
         meta["unit_tests_with_change"] = t.stdout.strip().splitlines()[-1] if t.stdout.strip() else ""
         meta["unit_tests_pass_with_change"] = t.returncode == 0
         print("demo unchanged exit=%s changed exit=%s ; unit tests: %s" % (e0.returncode, e1.returncode, meta["unit_tests_with_change"]))
+    except StopIteration:
+        pass
     finally:
         sh(["git", "-C", REPO, "worktree", "remove", "--force", wt])
         shutil.rmtree(wt, ignore_errors=True)
